@@ -8,5 +8,25 @@ package common
 // (C18) a string that does not fit the one-byte length prefix is rejected, not truncated or mis-framed.
 //@ func WriteString(s string, w io.Writer) (n int64, err error)
 //@   property C18
+//@   modifies spos
 //@   ensures err == nil ==> len(s) <= 255
 //@   ensures len(s) > 255 ==> err != nil && !called(io.Writer.Write)
+
+// (C18) the wire form of a string, in the byte-stream model of the prelude (sbyte / srange / spos): one length byte, then
+// exactly that many bytes.  The encoder is proved to PRODUCE this form at the writer's cursor ...
+//@   ensures err == nil ==> n == 1 + int64(len(s)) && spos == update(old(spos), ref(w), old(spos)[ref(w)] + 1 + len(s))
+//@   ensures err == nil ==> sbyte(ref(w), old(spos)[ref(w)]) == uint8(len(s)) && srange(ref(w), old(spos)[ref(w)] + 1, len(s)) == bytes(s)
+// ... and the decoder to ACCEPT exactly this form at the reader's cursor, returning the bytes it found there:
+//@ func ReadString(r io.Reader) (s string, n int64, err error)
+//@   property C18
+//@   modifies spos
+//@   ensures err == nil ==> n == 1 + int64(len(s)) && spos == update(old(spos), ref(r), old(spos)[ref(r)] + 1 + len(s))
+//@   ensures err == nil ==> len(s) == int(sbyte(ref(r), old(spos)[ref(r)])) && bytes(s) == srange(ref(r), old(spos)[ref(r)] + 1, len(s))
+
+// Round trip: a reader that delivers what the writer was given (same stream, same position) makes ReadString return
+// the string WriteString encoded.
+//@ macro sameStream(r, w) = spos[ref(r)] == spos[ref(w)] && (forall k int :: sbyte(ref(r), k) == sbyte(ref(w), k)) && (forall k int, m int :: srange(ref(r), k, m) == srange(ref(w), k, m))
+//@ func verifStringRoundTrip(s string, w io.Writer, r io.Reader) (t string, ok bool)
+//@   property C18
+//@   requires ref(r) != ref(w) && sameStream(r, w)
+//@   ensures ok ==> len(t) == len(s) && bytes(t) == bytes(s)
